@@ -60,3 +60,28 @@ def d12_density_of_a_snapshot():
 
 def match_d12(v):
     return v.get('check', '').endswith('.density') and v.get('d12') is True
+
+
+def d21_frozen_graph_accepts_interactions():
+    g = dn.DynGraph()
+    dn.freeze(g)
+    try:
+        g.add_interaction(1, 2, 0)
+    except Exception:
+        return False
+    return g.has_interaction(1, 2, 0)
+
+
+def match_d21(v):
+    c = v.get('check', '')
+    return c.startswith('C19.freeze.') and any(m in c for m in ('add_interaction', 'add_interactions_from', 'add_path', 'add_star', 'add_cycle'))
+
+
+def d24_node_density_counts_the_node_itself():
+    g = dn.DynGraph()
+    g.add_interaction(2, 1, 0)
+    return abs(g.node_density(1) - 0.5) < 1e-9
+
+
+def match_d24(v):
+    return v.get('check') == 'C17.node_density' and v.get('d24') is True
